@@ -14,6 +14,7 @@ import (
 	"github.com/bolkedebruin/rdpgw/cmd/rdpgw/web"
 	"pgregory.net/rapid"
 
+	"verif/harness/lab/idp"
 	"verif/harness/lab/jwx"
 )
 
@@ -335,4 +336,82 @@ func TestC15_FN(t *testing.T) {
 		cl = append(cl, fmt.Sprintf("signed=%v", c.Signed))
 		return nt, cl
 	}, runC15)
+}
+
+// ---- BIN: /tokeninfo of the real binary, keys wired through its configuration ----
+
+func TestC15_BIN(t *testing.T) {
+	runProp(t, "C15_BIN", genC15, func(c c15Case) (bool, []string) { return true, []string{fmt.Sprintf("signed=%v", c.Signed)} }, func(c c15Case) *Violation {
+		w := W()
+		in, err := webInstance(webOpts{Store: "cookie", HostSelection: "roundrobin", Hosts: []string{w.addr("A")}, VerifyIP: true, EnableUserToken: true, UserSigningKey: c.Signed, UsernameTemplate: "{{ username }}::{{ token }}"})
+		if err != nil {
+			return viol("bin/start", "%v", err)
+		}
+		// the harness mints with the same keys the instance was configured with
+		security.UserEncryptionKey = []byte(c15EncKey)
+		security.UserSigningKey = nil
+		if c.Signed {
+			security.UserSigningKey = []byte(c15SignKey)
+		}
+		// a token issued by the binary itself
+		b := newBrowser()
+		if lr, _, err := b.login(in, idp.CodeSpec{Sub: c.User, Username: c.User}); err != nil || lr.Code != 302 {
+			return viol("c15/setup", "login failed: %v %d", err, lr.Code)
+		}
+		dr, err := b.get(in, "/connect")
+		if err != nil || dr.Code != 200 {
+			return viol("c15/setup", "download failed: %v %d %s", err, dr.Code, shorten(dr.Body))
+		}
+		m, _ := parseRDP(dr.Body)
+		issued := strings.TrimPrefix(rdpString(m, "username"), c.User+"::")
+		for i, r := range c.Reqs {
+			now := time.Now()
+			tok := issued
+			if r.Tok.Kind != "minted" {
+				var err error
+				if tok, err = c15Build(r.Tok, c, now); err != nil {
+					return viol("c15/mint-error", "%v", err)
+				}
+			}
+			verdict, reason, sub := c15Verdict(tok, c.Signed, now)
+			q := url.Values{}
+			switch r.Param {
+			case "one":
+				q.Set("access_token", tok)
+			case "empty":
+				q.Set("access_token", "")
+			case "repeated":
+				q.Add("access_token", tok)
+				q.Add("access_token", "second")
+			}
+			resp, err := newBrowser().do(r.Method, in.URL("/tokeninfo?"+q.Encode()))
+			if err != nil {
+				return viol("c15/http", "%v", err)
+			}
+			desc := fmt.Sprintf("(real binary) request %d: signed=%v kind %s -> reference %s (%s); %s /tokeninfo (param %s) -> %d %q", i, c.Signed, r.Tok.Kind, verdict, reason, r.Method, r.Param, resp.Code, shorten(resp.Body))
+			switch {
+			case r.Method != "GET":
+				if resp.Code != 405 {
+					return viol("c15/method-not-refused", "%s", desc)
+				}
+			case r.Param == "absent" || r.Param == "empty" || tok == "":
+				if resp.Code != 400 {
+					return viol("c15/missing-param-status", "%s", desc)
+				}
+			case verdict == mustReject:
+				if resp.Code != 403 {
+					return viol("c15/status/"+r.Tok.Kind, "a token that must be refused: %s", desc)
+				}
+				if len(sub) >= 6 && strings.Contains(resp.Body, sub) {
+					return viol("c15/claims-disclosed", "%s", desc)
+				}
+			case verdict == mustAccept:
+				var out map[string]any
+				if resp.Code != 200 || json.Unmarshal([]byte(resp.Body), &out) != nil || out["sub"] != c.User {
+					return viol("c15/refused-valid/"+r.Tok.Kind, "a valid token: %s", desc)
+				}
+			}
+		}
+		return binHealthQuick(in)
+	})
 }
